@@ -46,6 +46,7 @@ type c08Arg struct {
 	Const bool   `json:"const"`
 	Val   string `json:"val_hex"`
 	Text  string `json:"text,omitempty"`
+	Raw   string `json:"raw,omitempty"` // a constant argument written verbatim as this expression (e.g. {@ a b c}); val_hex is its value
 }
 type c08In struct {
 	Kind     string            `json:"kind"`                // flat | call | nested | malformed | heavy
@@ -444,7 +445,9 @@ func callTemplate(fn string, args []c08Arg) (string, []string) {
 	for i, a := range args {
 		v := unhex(a.Val)
 		sb.WriteByte(' ')
-		if a.Const {
+		if a.Const && a.Raw != "" {
+			sb.WriteString(a.Raw)
+		} else if a.Const {
 			if bare(v) && (len(v)+i)%2 == 0 {
 				sb.WriteString(v)
 			} else {
@@ -857,6 +860,14 @@ func c08Gen(r *Rng, n int, tier string) []Case {
 		defer os.Remove(loadFile)
 	}
 
+	// 1f. one bad parameter at a time: for every helper with typed parameters, every arity it accepts, every position in
+	//     turn holds a bad value (empty, blank, text, a float where an integer is needed, beyond int64, negative, NaN)
+	//     while ALL OTHER positions hold good values; bad value constant or group, the others constant or group
+	for _, oc := range oneBadCases(r, tier) {
+		in, tags, heavy := mkCall("call", oc.fn, oc.args, false, true)
+		add(in, append(tags, "one-bad-parameter"), heavy, true)
+	}
+
 	// 1d. the contexts of `rare reduce` (pkg/aggregation/accumulator.go): group numbers of every magnitude and sign in
 	//     the accumulator (-a), group (-g) and sort (--sort) expression of an AccumulatingGroup, through the library API
 	for _, ac := range accumCases(r, 20+n/40) {
@@ -1051,6 +1062,120 @@ func genNested(r *Rng, names []string) (c08In, []string) {
 	_, _ = neg, key
 	tags = append(tags, textTags(tpl)...)
 	return in, tags
+}
+
+// ---- one bad parameter at a time
+const arrExpr = "{@ a b c d}"
+
+// good argument lists per helper, one per accepted arity
+var goodCalls = map[string][][]string{
+	"percent":        {{"50"}, {"50", "1"}, {"50", "1", "100"}, {"50", "1", "0", "100"}},
+	"clamp":          {{"5", "0", "10"}},
+	"bucket":         {{"17", "5"}},
+	"bucketrange":    {{"17", "5"}},
+	"expbucket":      {{"1234"}},
+	"round":          {{"3.14159"}, {"3.14159", "2"}},
+	"ceil":           {{"1.5"}},
+	"floor":          {{"1.5"}},
+	"bytesize":       {{"123456"}, {"123456", "2"}},
+	"bytesizesi":     {{"123456"}, {"123456", "2"}},
+	"downscale":      {{"123456"}, {"123456", "2"}},
+	"hi":             {{"1234567"}},
+	"hf":             {{"1234.5"}},
+	"substr":         {{"abcdef", "1", "3"}},
+	"select":         {{"a b c", "1"}},
+	"repeat":         {{"ab", "3"}},
+	"bar":            {{"5", "10", "8"}, {"5", "10", "8", "linear"}},
+	"color":          {{"red", "x"}},
+	"@slice":         {{arrExpr, "1"}, {arrExpr, "1", "2"}},
+	"@select":        {{arrExpr, "1"}},
+	"@split":         {{"a,b", ","}},
+	"@join":          {{arrExpr, "+"}},
+	"@range":         {{"5"}, {"0", "5"}, {"0", "5", "1"}},
+	"@in":            {{"a", arrExpr}},
+	"time":           {{"2024-01-02T03:04:05Z"}, {"2024-01-02T03:04:05Z", "RFC3339"}, {"2024-01-02T03:04:05Z", "RFC3339", "utc"}},
+	"timeformat":     {{"1700000000"}, {"1700000000", "RFC3339"}, {"1700000000", "RFC3339", "utc"}},
+	"buckettime":     {{"2024-01-02T03:04:05Z", "hour"}, {"2024-01-02T03:04:05Z", "hour", "RFC3339"}, {"2024-01-02T03:04:05Z", "hour", "RFC3339", "utc"}},
+	"timeattr":       {{"1700000000", "weekday"}, {"1700000000", "weekday", "utc"}},
+	"duration":       {{"1h30m"}},
+	"durationformat": {{"5400"}},
+	"sumi":           {{"7", "2"}, {"7", "2", "3"}},
+	"subi":           {{"7", "2"}, {"7", "2", "3"}},
+	"multi":          {{"7", "2"}, {"7", "2", "3"}},
+	"divi":           {{"7", "2"}, {"7", "2", "3"}},
+	"modi":           {{"7", "2"}, {"7", "2", "3"}},
+	"maxi":           {{"7", "2"}, {"7", "2", "3"}},
+	"mini":           {{"7", "2"}, {"7", "2", "3"}},
+	"sumf":           {{"1.5", "2"}, {"1.5", "2", "3"}},
+	"subf":           {{"1.5", "2"}, {"1.5", "2", "3"}},
+	"multf":          {{"1.5", "2"}, {"1.5", "2", "3"}},
+	"divf":           {{"1.5", "2"}, {"1.5", "2", "3"}},
+	"pow":            {{"2", "10"}},
+	"sqrt":           {{"16"}},
+	"log10":          {{"100"}},
+	"lt":             {{"1", "2"}},
+	"gt":             {{"1", "2"}},
+	"lte":            {{"1", "2"}},
+	"gte":            {{"1", "2"}},
+	"format":         {{"%s-%v", "x", "y"}},
+	"lookup":         {{"k", "k v"}, {"k", "k v", "#"}},
+	"haskey":         {{"k", "k v"}, {"k", "k v", "#"}},
+	"json":           {{`[1,2]`, "0"}},
+	"if":             {{"1", "a"}, {"1", "a", "b"}},
+	"!":              {{"1 + 2"}},
+}
+
+var badParams = []string{"", " ", "abc", "1.5", "9223372036854775808", "-5", "-9223372036854775808", "NaN", "0", "1e3"}
+
+type oneBad struct {
+	fn   string
+	args []c08Arg
+}
+
+func oneBadCases(r *Rng, tier string) []oneBad {
+	var out []oneBad
+	var fns []string
+	for fn := range goodCalls {
+		if _, ok := stdlib.StandardFunctions[fn]; ok { // a helper that no longer exists is not generated
+			fns = append(fns, fn)
+		}
+	}
+	sort.Strings(fns)
+	mk := func(v string, cst bool) c08Arg {
+		if v == arrExpr {
+			if cst {
+				return c08Arg{Const: true, Val: hx("a\x00b\x00c\x00d"), Text: arrExpr, Raw: arrExpr}
+			}
+			return c08Arg{Const: false, Val: hx("a\x00b\x00c\x00d"), Text: "a NUL b NUL c NUL d"}
+		}
+		return c08Arg{Const: cst && constSafe(v), Val: hx(v), Text: readable(v)}
+	}
+	for _, fn := range fns {
+		for _, good := range goodCalls[fn] {
+			for pos := range good {
+				for _, bad := range badParams {
+					// modes: bad constant + others constant | bad constant + others groups | all groups | bad group + others constant
+					for mode := 0; mode < 4; mode++ {
+						if mode >= 2 && tier != "thorough" && !r.Chance(1, 3) { // the compile-time modes are always generated
+							continue
+						}
+						args := make([]c08Arg, len(good))
+						for i, g := range good {
+							badC := mode == 0 || mode == 1
+							othC := mode == 0 || mode == 3
+							if i == pos {
+								args[i] = mk(bad, badC)
+							} else {
+								args[i] = mk(g, othC)
+							}
+						}
+						out = append(out, oneBad{fn, args})
+					}
+				}
+			}
+		}
+	}
+	return out
 }
 
 // ---- concurrent mode: the expressions
@@ -1629,6 +1754,7 @@ func main() {
 			"(1c) arguments parsed as a small language by a library (printf formats of format, layouts / zones / bucket and attribute names of the time helpers, gjson paths, durations, @split delimiters, lookup tables): every truncated or unpaired tail (lone %, %-, %5, %., %[, quotes, brackets, backslashes) after plain prefixes, as a template constant and via a group, plus random strings of each grammar; " +
 			"(1d) the accumulator, group and sort contexts of rare reduce (aggregation.AccumulatingGroup through the library API): group numbers 0..5, negative, +-2^31, 2^32, 10^8, MinInt64, MaxInt64 in the -a / -g / --sort expression, alone (value predicted) and inside helpers; " +
 			"(1e) concurrent mode: a fixed list of ~47 expressions over every helper family with a forwarder or internal state (time / buckettime in explicit, auto and cache mode, timeformat, timeattr, duration, format, json, lookup / haskey / load tables, the @ binders, repeat / bar / color, hi / hf / bytesize / downscale / percent, {! ..}, scalar helpers), each compiled once and evaluated by 6 goroutines at once, 5000 evaluations each over 512 ordinary value sets, in the sandboxed worker (a runtime fatal error kills the worker and is the outcome of the case); divi / modi with 2..5 operands and a zero in every later position; " +
+			"(1f) one bad parameter at a time: ~50 helpers with typed parameters x every accepted arity x every position in turn holding each of 10 bad values (empty, blank, text, float for int, beyond int64, negative, MinInt64, NaN, 0, 1e3) while all other positions hold good values; bad value and the others independently constant or group (both constant-bad modes always, the group-bad modes thinned by the seed in the quick tier); " +
 			"(0) the inputs of the recorded findings. Non-trivial: an argument is a boundary value, or the case is nested / malformed. Distinct: by " +
 			"(template, groups, keys, colour/unicode switches).",
 		Gen:    c08Gen,
